@@ -298,6 +298,10 @@ SPECS = {
              ["abc", '"s"', '"a b"', "=", ";", " ", "\t", "\n", "\r\n", "x=y;", '"unterminated', "A", "é", "a\x0bb"]),
     "eol": ('grammar eol;\nEOL = /\\x0A/;\nWORD = /[a-z]+/;\nNUM = /[0-9]+/;\nstart = WORD NUM;\n',
             ["ab", "12", "\n", " ", "\t", "\r", "a1", "1a", "\n\n", "zz 9"]),
+    # a line feed that is a REPORTED token (not named WS / EOL / COMMENT): read as look-ahead after a token and handed back,
+    # its own position must be the one before it was read
+    "nl": ('grammar nl;\nNL = /\\x0A/;\nWORD = /[a-z]+/;\nNUM = /[0-9]+/;\nCRLF = /\\x0D\\x0A/;\nstart = WORD NUM NL CRLF;\n',
+           ["ab", "12", "\n", " ", "ab\n", "\n\n", "a1\n", "\r\n", "ab\r\n", "\t", "1\n2\n"]),
     "greek": ('grammar greek;\nGR = /\\p{Greek}+/;\nLO = /[a-z]+/;\nEU = /\\x20AC/;\nstart = GR LO EU;\n',
               ["αβγ", "abc", "€", " ", "α", "aα", "€€", "\n", "ж", "😀"]),
     "prefix": ('grammar prefix;\nstart = "a" "ab" "abc" "abcd" "b";\n', ["a", "ab", "abc", "abcd", "abce", "b", "abca", " ", "abcab"]),
